@@ -1,10 +1,12 @@
 package props
 
 import (
+	"bytes"
 	"fmt"
 	"iter"
 	"runtime"
 	"runtime/debug"
+	"sort"
 	"syscall"
 
 	"verif/core"
@@ -146,6 +148,7 @@ type c18Info struct {
 	errItems int
 	name     string
 	reusable bool
+	stops    int
 }
 
 func execC18(c *Case) *Verdict {
@@ -244,8 +247,9 @@ func execC18Info(c *Case) (*Verdict, c18Info) {
 			return &Verdict{Clause: "C18.prefix", Key: "C18.prefix" + key, Detail: where + ": items seen are not the leading items of the uninterrupted run",
 				Expected: full.Items, Observed: out.Items}
 		}
-		if reusable {
+		if reusable && (c.Stops == nil || plan.StopAt%7 == 0 || plan.StopAt == len(full.Items)-1) {
 			// the same iterator value, run again without stopping, must behave as before the stop
+			// (in long iterations only after some of the stops: each re-walk costs a full pass)
 			again := sim.Consume(mk(), sim.ConsumerPlan{Style: sim.Direct, StopAt: -1}, 100000)
 			same := again.Panic == "" && again.Capped == "" && len(again.Items) == len(full.Items)
 			if same && !unordered {
@@ -387,7 +391,18 @@ func execC18Info(c *Case) (*Verdict, c18Info) {
 		}
 		return burst(), info
 	}
-	for j := 0; j < len(full.Items); j++ {
+	positions := c.Stops
+	if positions == nil {
+		for j := 0; j < len(full.Items); j++ {
+			positions = append(positions, j)
+		}
+	}
+	info.stops = 0
+	for _, j := range positions {
+		if j < 0 || j >= len(full.Items) {
+			continue
+		}
+		info.stops++
 		for _, style := range sim.Styles {
 			if v := check(sim.ConsumerPlan{Style: style, StopAt: j}); v != nil {
 				c.Consumer = &sim.ConsumerPlan{Style: style, StopAt: j} // pin the failing point for shrinking and replay
@@ -421,6 +436,34 @@ func genTreeSpec(r *core.Rng, depth int, budget *int) *NodeSpec {
 func RunC18(ctx *core.Ctx, r *core.Rng) {
 	c := &Case{Clause: "C18"}
 	x := r.Intn(100)
+	long := r.Chance(0.0004)
+	if long {
+		// a long iteration (tens of thousands of items): stop positions are sampled, with
+		// the neighbours of every power of two among them (block sizes, counters, growth steps)
+		x = core.Pick(r, []int{95, 75, 75, 10})
+	}
+	defer func() {
+		if long && c.Stops == nil {
+			c.Stops = []int{}
+		}
+	}()
+	stopsFor := func(n int) []int {
+		set := map[int]bool{0: true, n - 1: true}
+		for p := 1024; p < n+2; p *= 2 {
+			set[p-1], set[p], set[p-2] = true, true, true
+		}
+		for i := 0; i < 4; i++ {
+			set[r.Intn(n+1)] = true
+		}
+		var out []int
+		for j := range set {
+			if j >= 0 && j < n {
+				out = append(out, j)
+			}
+		}
+		sort.Ints(out)
+		return out
+	}
 	switch {
 	case x < 45: // Reader of a format under a delivery plan, often with a fault so that an error item exists
 		f := core.Pick(r, fmts.All)
@@ -442,8 +485,32 @@ func RunC18(ctx *core.Ctx, r *core.Rng) {
 		if len(c.Input) > 700 && sz != fmts.Medium {
 			c.Input = c.Input[:700]
 		}
+		if r.Chance(0.03) { // starts like a gzip stream / carries a byte order mark
+			c.Input = append(append([]byte(core.Pick(r, []string{"\x1f\x8b\x08", "\x1f\x8b\x08", "\x1f\x8b", "\xef\xbb\xbf"})), r.Bytes(r.Range(0, 12), "\x00\x02\x08\xff\x1fAa\n")...), c.Input...)
+		}
+		if long { // tens of thousands of tiny records
+			f = core.Pick(r, []*fmts.Format{fmts.Fasta, fmts.Bed, fmts.Fastq})
+			c.Format = f.Name
+			n := r.Range(66000, 90000)
+			var b bytes.Buffer
+			for i := 0; i < n; i++ {
+				switch f.Name {
+				case "fasta":
+					fmt.Fprintf(&b, ">%d\nAC\n", i)
+				case "bed":
+					fmt.Fprintf(&b, "c\t%d\t%d\n", i, i+1)
+				default:
+					fmt.Fprintf(&b, "@%d\nA\n+\nI\n", i)
+				}
+			}
+			c.Input = b.Bytes()
+			c.Stops = stopsFor(n)
+		}
 		plan := genPlan(r, core.Pick(r, planStyles), c.Input, f.Special)
-		if r.Chance(0.6) {
+		if long {
+			plan = sim.Plan{Tail: core.Pick(r, []int{0, 4096, 1000})}
+		}
+		if r.Chance(0.6) && !long {
 			plan.Fault = &sim.Fault{Offset: r.Range(0, len(c.Input)), Forever: r.Bool(), WithData: r.Bool(), Kind: sim.FaultKinds[r.Intn(len(sim.FaultKinds))]}
 			if r.Chance(0.35) { // transient: one error, then the rest of the data arrives
 				plan.Fault.Forever, plan.Fault.Resume = false, true
@@ -480,7 +547,16 @@ func RunC18(ctx *core.Ctx, r *core.Rng) {
 		if r.Chance(0.05) {
 			budget, depth = r.Range(100, 400), r.Range(3, 9) // beyond any small fixed-size internal stack
 		}
+		if long {
+			budget, depth = r.Range(66000, 140000), r.Range(4, 12)
+		}
 		c.Rec = &WriteRec{Newick: genTreeSpec(r, depth, &budget)}
+		if long {
+			for c.Rec.Newick.count() < 66000 { // top up with leaves under the root
+				c.Rec.Newick.Children = append(c.Rec.Newick.Children, &NodeSpec{})
+			}
+			c.Stops = stopsFor(c.Rec.Newick.count())
+		}
 		if n := c.Rec.Newick; len(n.Children) > 0 {
 			for _, ch := range n.Children {
 				if len(ch.Children) > 0 {
@@ -515,20 +591,29 @@ func RunC18(ctx *core.Ctx, r *core.Rng) {
 		if len(c.Input) > 40 && r.Chance(0.7) {
 			c.K = r.Range(1, 12)
 		}
+		if long {
+			c.Input = r.Bytes(r.Range(66000, 140000), "ACGT")
+			c.K = r.Range(1, 31)
+			c.Stops = stopsFor(len(c.Input) - c.K + 1)
+		}
 	}
 	ctx.EvS(describe(c))
 	v, info := execC18Info(c)
 	ctx.Stats.Inc("cases/" + info.name)
-	ctx.EvalN(int64(1 + 3*info.n))
+	ctx.EvalN(int64(1 + 3*info.stops))
 	if info.reusable {
-		ctx.EvalN(int64(3 * info.n))
-		ctx.Stats.Add("fault_fired/rerun_same_iterator_after_stop", int64(3*info.n))
+		ctx.EvalN(int64(3 * info.stops))
+		ctx.Stats.Add("fault_fired/rerun_same_iterator_after_stop", int64(3*info.stops))
 	}
 	if info.skipped != "" {
 		ctx.Stats.Inc("skipped_" + info.skipped + "/" + info.name)
 	} else {
-		ctx.Stats.Add("fault_fired/consumer_stop", int64(3*info.n))
-		ctx.Stats.Add("stop_positions_enumerated/"+info.name, int64(info.n))
+		ctx.Stats.Add("fault_fired/consumer_stop", int64(3*info.stops))
+		if c.Stops == nil {
+			ctx.Stats.Add("stop_positions_enumerated/"+info.name, int64(info.stops))
+		} else {
+			ctx.Stats.Add("stop_positions_sampled_in_long_iterations/"+info.name, int64(info.stops))
+		}
 		if info.n > 0 {
 			ctx.Stats.Inc("probe/stop_on_first_and_last_item/" + info.name)
 			ctx.Seen(core.HashString(describe(c)))
